@@ -605,7 +605,7 @@ def replay(data):
 # --- translated small functions (tools/gens/gen_pure.py): Props/T_insns.v proves the regenerated Python functions
 # equal to the hand models this property's theorems are about; explore_t cross-checks the translator itself
 import t_check  # noqa: E402
-PROP_FILES = PROP_FILES + ["Props/T_insns.v", "Props/T.v"]
+PROP_FILES = PROP_FILES + ["Props/T_insns.v", "Props/T.v", "Props/C04_fixup.v"]
 RUN_FILES = RUN_FILES + ["Run/TRunInsns.v"]
 _explore_without_t = explore
 
